@@ -156,7 +156,48 @@ def r10_6(ctx):
     ctx.floor("R10.6", "encoding-rs-facts", n + k, 11)
 
 
+def r10_7(ctx):
+    """completing a sequence that was split over two chunks (IncompleteUtf8::try_complete_offsets): the bytes taken from the new
+    chunk are exactly (new stored length - old stored length); a valid prefix keeps valid_up_to bytes; a malformed sequence keeps
+    error_len bytes - the maximal invalid prefix, so that exactly one U+FFFD stands for it and decoding resumes right behind it"""
+    key, pcs = nfq.cells(ctx, AREA, "::try_complete_offsets")
+    bad = None
+    kinds = set()
+    n = 0
+    for pc in nfq.feasible(pcs):
+        ret = str(pc["ret"])
+        m = re.fullmatch(r"\((.*),(Valid|MalformedUtf8Buffer|NotEnoughInput)\)", ret)
+        ls = [str(args[0]) for a, args in pc["actions"] if a == "assign self.buffer_len" and args]
+        if m is None or len(ls) != 1:
+            bad = "a path does not answer (consumed, kind) after storing the new length exactly once: %s / %s" % (ret[:80], ls)
+            continue
+        n += 1
+        consumed, kind = m.group(1), m.group(2)
+        kinds.add(kind)
+        lm = re.fullmatch(r"\((.*) as u8\)", ls[0])
+        L = lm.group(1) if lm else ls[0]
+        init = "(self.buffer_len as usize)"
+        by_difference = consumed == "%s.checked_sub(%s).unwrap()" % (L, init) or consumed == "(%s - %s)" % (L, init)
+        by_sum = L == "self.buffer[..(%s + %s)].len()" % (init, consumed)
+        if not (by_difference or by_sum):
+            bad = "%s path: consumed = %s but the stored length becomes %s: the input is not advanced by the number of bytes that were taken into the buffer" % (kind, consumed[:90], L[:90])
+        g = pc["guards"]
+        vut = [v for k, v in g.items() if k.endswith(".valid_up_to())") and k.startswith("(0 < ")]
+        el = [v for k, v in g.items() if ".error_len() matches Some(_)" in k]
+        if kind == "MalformedUtf8Buffer" and not (vut == [False] and el == [True] and re.fullmatch(r".*\.error_len\(\)\.0", L)):
+            bad = "a malformed completion keeps %s instead of the invalid sequence's own length (error_len): bytes of the malformed sequence are handed back to the caller and decoded a second time, or bytes behind it are swallowed" % L[:90]
+        if kind == "Valid" and vut == [True] and not re.fullmatch(r".*\.valid_up_to\(\)", L):
+            bad = "a completed valid prefix keeps %s instead of valid_up_to bytes" % L[:90]
+        if kind == "NotEnoughInput" and not (el == [False] and by_sum):
+            bad = "NotEnoughInput is answered although the sequence is known to be invalid, or without keeping all copied bytes"
+    ctx.ob("R10.7", "split-sequence-completion-accounting", bad is None and n >= 6 and kinds == {"Valid", "MalformedUtf8Buffer", "NotEnoughInput"}, bad or
+           "%d paths: consumed = new length - old length; Valid keeps valid_up_to / all bytes, Malformed keeps error_len bytes, NotEnoughInput keeps everything copied" % n,
+           "tendril utf8_decode IncompleteUtf8::try_complete_offsets")
+
+
 def run(ctx):
+    ctx.rule("R10.7", "completing a split sequence: input advances by (new stored length - old stored length); a malformed completion keeps exactly error_len bytes")
+    ctx.guard("R10.7", "completion", lambda: r10_7(ctx))
     if ctx.config == "all-features":
         ctx.rule("R10.6", "encoding_rs feature: LossyDecoder flushes with last = true at finish, pairs each error with one U+FFFD, reinterprets only decoder-written UTF-8, advances by bytes_read")
         ctx.guard("R10.6", "encoding_rs", lambda: r10_6(ctx))
